@@ -56,6 +56,11 @@ def cases(spec, ctx):
         yield {"work": "synth", "part": "d", "i": 1, "force": {"method": "bilateral", "shape": [101, 104], "ss": 1.0}}
         yield {"work": "synth", "part": "d", "i": 2, "force": {"method": "bilateral", "shape": [9, 30], "ss": 1.4}}   # width 5
         yield {"work": "synth", "part": "d", "i": 20, "force": {"method": "bilateral", "shape": [125, 240], "ss": 2.0, "layout": "large-area", "area": [112, 115]}}
+        # maps exactly as high / wide as the filter window (the middle row or column is still filtered)
+        yield {"work": "synth", "part": "d", "i": 30, "force": {"method": "median_for_intervals", "shape": [5, 30], "fs": 5, "noreg": True}}
+        yield {"work": "synth", "part": "d", "i": 31, "force": {"method": "median_for_intervals", "shape": [40, 3], "fs": 3, "noreg": True}}
+        yield {"work": "synth", "part": "d", "i": 32, "force": {"method": "median", "shape": [7, 33], "fs": 7}}
+        yield {"work": "synth", "part": "d", "i": 33, "force": {"method": "bilateral", "shape": [7, 33], "ss": 2.0}}
         yield {"work": "synth", "part": "d", "i": 22, "force": {"method": "median_for_intervals", "shape": [104, 33], "fs": 3}}
         yield {"work": "synth", "part": "d", "i": 23, "force": {"method": "median_for_intervals", "shape": [31, 207], "fs": 5}}
         yield {"work": "synth", "part": "d", "i": 21, "force": {"method": "median", "shape": [215, 130], "fs": 5, "layout": "large-area", "area": [204, 101]}}
@@ -261,7 +266,7 @@ def run_case(case, ctx):
         fs = f.get("fs") or int(rng.choice([1, 3, 5]))
         params = {"filter_method": "median_for_intervals", "filter_size": fs,
                   "interval_indicator": ["", "b"][int(rng.integers(0, 2))]}
-        if rng.random() < 0.6 or f.get("method") == "median_for_intervals":
+        if (rng.random() < 0.6 or f.get("method") == "median_for_intervals") and not f.get("noreg"):
             params.update({"regularization": True, "ambiguity_indicator": "", "ambiguity_threshold": float(rng.choice([0.3, 0.6, 0.9])),
                            "ambiguity_kernel_size": int(rng.choice([1, 3, 5])), "vertical_depth": int(rng.choice([0, 1, 2])),
                            "quantile_regularization": float(rng.choice([0.8, 1.0]))})
